@@ -87,7 +87,8 @@ def check_soo(ctx):
     # the fold is re-seeded for every depth (inside the depth loop)
     wl = [w for w in ast.walk(pull) if isinstance(w, ast.While)]
     inner = [w for w in wl if norm_src(w.test) != "True"]
-    okcap = len(inner) == 1 and norm_src(inner[0].test) in ("h <= min(self.partition.get_depth(), self.h_max)", "h <= min(self.h_max, self.partition.get_depth())")
+    okcap = len(inner) == 1 and [C.atom_of(e, pol) for e, pol in C.flatten_cond(inner[0].test, True)] in (
+        [("<=", "h", "min(self.partition.get_depth(), self.h_max)")], [("<=", "h", "min(self.h_max, self.partition.get_depth())")])
     ctx.ob("R08-CAP", okcap, c.file, q, "sweep bounded by min(tree depth, h_max)", norm_src(inner[0].test) if inner else "?", pull.lineno)
     if inner:
         W = inner[0]
